@@ -87,8 +87,40 @@ class Sources:
         for n in body:
             if isinstance(n, ast.FunctionDef) and n.name == name:
                 return n
+        if cls is None:
+            # the module may only re-export the function (`from .codec import serialize`): the definition is the anchor
+            where = self.locate(rel, name)
+            if where is not None and where[0] != rel:
+                return self.func(where[0], where[1])
         q = f"{cls}.{name}" if cls else name
         raise AnalysisError(f"anchor function {q} not found in {rel}")
+
+    def locate(self, rel: str, name: str, depth: int = 0) -> Optional[Tuple[str, str]]:
+        """(module file, function name) where the function known as `name` in module `rel` is defined, following
+        `from .x import name [as alias]` re-exports inside the package; None if it is not found"""
+        if rel not in self.trees or depth > 4:
+            return None
+        t = self.tree(rel)
+        for n in t.body:
+            if isinstance(n, ast.FunctionDef) and n.name == name:
+                return rel, name
+        for n in t.body:
+            if isinstance(n, ast.ImportFrom):
+                for a in n.names:
+                    if (a.asname or a.name) != name:
+                        continue
+                    if n.level >= 1:
+                        base = rel.split("/")[:-n.level]
+                        parts = base + (n.module.split(".") if n.module else [])
+                    elif n.module and n.module.startswith("a5"):
+                        parts = n.module.split(".")
+                    else:
+                        continue
+                    for cand in ("/".join(parts) + ".py", "/".join(parts) + "/__init__.py"):
+                        got = self.locate(cand, a.name, depth + 1)
+                        if got is not None:
+                            return got
+        return None
 
     def digest(self) -> str:
         h = hashlib.sha256()
